@@ -32,10 +32,57 @@ pub fn string_literals_from_ident<'a>(
             Type2::Typename { ident, .. } => {
               literals.append(&mut string_literals_from_ident(cddl, ident))
             }
+            // x = ("b"): parentheses around the literal do not change what the name denotes
+            Type2::ParenthesizedType { pt, .. } => {
+              literals.append(&mut literals_from_parenthesized(cddl, pt, true))
+            }
             _ => continue,
           }
         }
       }
+    }
+  }
+
+  literals
+}
+
+/// Literals of a parenthesized rule body (`x = ("b")`, `n = ((2))`): the operator-free type choices inside
+/// the parentheses, looked through nested parentheses and rule names like the unparenthesized body
+fn literals_from_parenthesized<'a>(
+  cddl: &'a CDDL<'a>,
+  pt: &'a Type<'a>,
+  strings: bool,
+) -> Vec<&'a Type2<'a>> {
+  let mut literals = Vec::new();
+  for tc in pt.type_choices.iter() {
+    if tc.type1.operator.is_some() {
+      continue;
+    }
+    match &tc.type1.type2 {
+      t @ Type2::TextValue { .. }
+      | t @ Type2::UTF8ByteString { .. }
+      | t @ Type2::B16ByteString { .. }
+      | t @ Type2::B64ByteString { .. }
+        if strings =>
+      {
+        literals.push(t)
+      }
+      t @ Type2::IntValue { .. } | t @ Type2::UintValue { .. } | t @ Type2::FloatValue { .. }
+        if !strings =>
+      {
+        literals.push(t)
+      }
+      Type2::Typename { ident, .. } => {
+        if strings {
+          literals.append(&mut string_literals_from_ident(cddl, ident))
+        } else {
+          literals.append(&mut numeric_values_from_ident(cddl, ident))
+        }
+      }
+      Type2::ParenthesizedType { pt, .. } => {
+        literals.append(&mut literals_from_parenthesized(cddl, pt, strings))
+      }
+      _ => continue,
     }
   }
 
@@ -56,6 +103,9 @@ pub fn numeric_values_from_ident<'a>(cddl: &'a CDDL<'a>, ident: &Identifier) -> 
             | t @ Type2::FloatValue { .. } => literals.push(t),
             Type2::Typename { ident, .. } => {
               literals.append(&mut numeric_values_from_ident(cddl, ident))
+            }
+            Type2::ParenthesizedType { pt, .. } => {
+              literals.append(&mut literals_from_parenthesized(cddl, pt, false))
             }
             _ => continue,
           }
